@@ -16,6 +16,7 @@
           file parser ([Decoders.local_caps]).
     No proofs here. *)
 From CSS Require Import Lib.Base Model.Decoders.
+From CSS Require Model.EventLog.
 
 (** * PEM block loops *)
 
@@ -144,6 +145,97 @@ Definition local_files (dev_missing caps_missing : bool) (caps : list Z) : rd (l
   if dev_missing then ret [TypeNoTPM]
   else if caps_missing then ret [TypeTPM20]
   else local_caps caps.
+
+(** * pkg/tpmeventlog/replay.go: Replay and its optional log writer
+
+    [Replay(eventLog, pcrIndex, hashAlgo, logOut io.Writer)] writes a trace of
+    the replay ("set(...)", "<hasher>(old digest) -> new") to [logOut], which
+    is OPTIONAL: callers pass nil (the only caller in cmd/ does).  The value
+    computed is [EventLog.replay] (shared with C12); what is added here is the
+    interaction with the writer, because a write through a nil interface is a
+    nil-pointer dereference, i.e. a panic that depends on the shape of the
+    event log (which of the five write sites the log reaches):
+
+      site 0  "set" of PCR1 (always reached for PCR1)
+      site 1  "set" after a StartupLocality EV_NO_ACTION event (PCR0)
+      site 2  "set" when the first selected event of PCR0 is a measurement
+              (no init event seen: zeros are assumed)
+      site 3  the line in front of every extend
+      site 4  the line after every extend
+
+    [nilsafe k] says that site [k] copes with a nil writer.  The code as it is
+    replaces a nil writer by io.Discard on entry, which makes every site safe:
+    [all_safe].  The results of the writes are discarded by every site
+    ([_, _ = fmt.Fprintf(...)]), so a writer that fails ([W_FAILING]) changes
+    nothing. *)
+Inductive log_writer := W_NIL | W_SINK | W_FAILING.
+
+Definition W_SITE_SET_PCR1 : Z := 0.
+Definition W_SITE_SET_LOCALITY : Z := 1.
+Definition W_SITE_SET_ZEROS : Z := 2.
+Definition W_SITE_EXTEND_BEFORE : Z := 3.
+Definition W_SITE_EXTEND_AFTER : Z := 4.
+
+Definition all_safe : Z -> bool := fun _ => true.
+(** every site but [k] copes with a nil writer *)
+Definition all_safe_but (k : Z) : Z -> bool := fun j => negb (j =? k).
+
+(** one [fmt.Fprintf(logOut, ...)] whose results are dropped *)
+Definition fprintf_at (nilsafe : Z -> bool) (w : log_writer) (site : Z) : outcome unit :=
+  match w with
+  | W_NIL => if nilsafe site then Ok tt else Panic
+  | W_SINK | W_FAILING => Ok tt
+  end.
+
+Section ReplayWriter.
+Variable nilsafe : Z -> bool.
+Variable H : Z -> list Z -> list Z.
+Variable w : log_writer.
+
+Fixpoint replay_loop_w (size p a : Z) (evs : list EventLog.event) (res : list Z) : outcome (list Z) :=
+  match evs with
+  | [] => Ok res
+  | e :: t =>
+      if EventLog.ev_type e =? EventLog.EV_NO_ACTION then
+        if negb (EventLog.is_nil res) then Err EventLog.E_UNEXPECTED
+        else if p =? 0 then
+          Base.bind (EventLog.parse_locality (EventLog.ev_data e)) (fun loc =>
+          Base.bind (EventLog.zeros_loc size loc) (fun r =>
+          Base.bind (fprintf_at nilsafe w W_SITE_SET_LOCALITY) (fun _ => replay_loop_w size p a t r)))
+        else Err EventLog.E_INDEX
+      else
+        Base.bind (if EventLog.is_nil res
+              then (if p =? 0
+                    then Base.bind (fprintf_at nilsafe w W_SITE_SET_ZEROS) (fun _ => Ok (EventLog.zeros size))
+                    else Err EventLog.E_INDEX)
+              else Ok res) (fun r =>
+        match EventLog.ev_digest e with
+        | None => Panic (* event.Digest.Digest on a nil pointer *)
+        | Some d =>
+            Base.bind (fprintf_at nilsafe w W_SITE_EXTEND_BEFORE) (fun _ =>
+            Base.bind (fprintf_at nilsafe w W_SITE_EXTEND_AFTER) (fun _ =>
+            replay_loop_w size p a t (H a (r ++ EventLog.d_bytes d))))
+        end)
+  end.
+
+Definition replay_w (l : list EventLog.event) (p a : Z) : outcome (list Z) :=
+  match EventLog.hash_size a with
+  | None => Err EventLog.E_ALG
+  | Some size =>
+      Base.bind (EventLog.filter_events size p a l) (fun evs =>
+      Base.bind (if p =? 0 then Ok []
+            else if p =? 1 then Base.bind (fprintf_at nilsafe w W_SITE_SET_PCR1) (fun _ => Ok (EventLog.zeros size))
+            else Err EventLog.E_INDEX) (fun res0 =>
+      Base.bind (replay_loop_w size p a evs res0) (fun res =>
+      if EventLog.is_nil res && (p =? 0) then Ok (EventLog.zeros size) else Ok res)))
+  end.
+End ReplayWriter.
+
+(** tpmeventlog.Replay as it is *)
+Definition replay_out := replay_w all_safe.
+
+(** the writer of a case: 0 = nil, 1 = a writer that accepts everything, 2 = a writer whose Write fails *)
+Definition writer_of (k : Z) : log_writer := if k =? 0 then W_NIL else if k =? 1 then W_SINK else W_FAILING.
 
 (** * for the constants tie: a byte list as a Coq string (register ids are
     written as byte lists in Model/Decoders.v, as string constants in the Go source) *)
